@@ -118,11 +118,81 @@ def _builtin_case(i, rng, tier):
     return {"digest": C.digest("builtin", src, proto, steps), "nontrivial": True, "failures": failures, "counters": counters, "sets": {}, "sample": {"kind": "built-in functions in the quantity", "quantity": src, "fills": steps[:4]}}
 
 
+def _module_def_case(i, rng, tier):
+    """A quantity that is a top-level def of an importable module whose name is rebound after the aggregator was booked
+    (the helper name reused for the next histogram, `f = named("n", f)`, `f = cached(f)`): the clone must still compute
+    what the original computes - a function pickled by reference would come back as whatever the name means now."""
+    import sys
+    import types
+
+    hg = env.hg()
+    from histogrammar.util import cached, named
+
+    variant = ("redefined", "redefined-same-code-shape", "named-rebind", "cached-rebind", "deleted", "untouched")[(i // 20) % 6]
+    modname = "hgmon_c11_userdefs_%d" % i
+    mod = types.ModuleType(modname)
+    sys.modules[modname] = mod
+    failures = []
+    counters = {"module_def_cases": 1, "module_def:" + variant: 1}
+    wit = {"variant": variant}
+    vals = [0.5, 1.5, 2.5, -0.5, 3.0, 0.0, 7.25, 11.0]
+    try:
+        exec("def quantity(d):\n    return d['x'] * 2 + 1\n", mod.__dict__)
+        q = mod.quantity
+        h = hg.UntypedLabel(s=hg.Sum(q), b=hg.Bin(8, -4.0, 28.0, q, hg.Count(), hg.Count(), hg.Count(), hg.Count()))
+        for _ in range(rng.randint(0, 3)):
+            h.fill({"x": rng.choice(vals)}, 1.0)
+        if variant == "redefined":
+            exec("def quantity(d):\n    return -d['x']\n", mod.__dict__)
+        elif variant == "redefined-same-code-shape":
+            exec("def quantity(d):\n    return d['x'] * 3 + 1\n", mod.__dict__)
+        elif variant == "named-rebind":
+            mod.quantity = named("heavy", mod.quantity)
+        elif variant == "cached-rebind":
+            mod.quantity = cached(mod.quantity)
+        elif variant == "deleted":
+            del mod.quantity
+        proto = rng.choice([2, 3, 4, 5])
+        before = O.text(h)
+        try:
+            c = pickle.loads(pickle.dumps(h, proto))
+        except Exception as e:  # noqa: BLE001
+            failures.append(C.fail(None, "pickle round trip of a tree whose quantity is a module-level def (%s) raised %s: %s" % (variant, type(e).__name__, str(e)[:200]), **wit))
+            return {"digest": C.digest("moddef", variant, i % 20, proto), "nontrivial": False, "failures": failures, "counters": counters, "sets": {}}
+        try:
+            if not (c == h and h == c) or O.text(c) != before or O.text(h) != before:
+                failures.append(C.fail(None, "the clone of a tree whose quantity is a module-level def (%s) is not equal to the original" % variant, **wit))
+        except Exception as e:  # noqa: BLE001
+            failures.append(C.fail(None, "comparing clone and original (module-level def, %s) raised %s: %s" % (variant, type(e).__name__, str(e)[:160]), **wit))
+        steps = []
+        for _ in range(rng.randint(3, 8)):
+            if failures:
+                break
+            v, w = rng.choice(vals), rng.choice([1.0, 0.5, 2.0])
+            res = []
+            for x_ in (h, c):
+                try:
+                    x_.fill({"x": v}, w)
+                    res.append(None)
+                except Exception as e:  # noqa: BLE001
+                    res.append(type(e).__name__)
+            steps.append([v, w])
+            counters["lockstep_comparisons"] = counters.get("lockstep_comparisons", 0) + 1
+            if res[0] != res[1] or O.text(h) != O.text(c):
+                d = O.diff(json.loads(O.text(h)), json.loads(O.text(c)), 0.0, exact=True) if res[0] == res[1] else []
+                failures.append(C.fail(None, "module-level def quantity (%s): after filling x=%r the original %s and the clone %s%s" % (variant, v, res[0] or "succeeded", res[1] or "succeeded", ": " + C.fmt_diff(d) if d else ""), steps=steps, **wit))
+        return {"digest": C.digest("moddef", variant, proto, steps), "nontrivial": True, "failures": failures, "counters": counters, "sets": {}, "sample": {"kind": "module-level def quantity", "variant": variant, "fills": steps[:4]}}
+    finally:
+        sys.modules.pop(modname, None)
+
+
 def run_case(i, rng, tier):
     from histogrammar.defs import Factory
 
     if i % 20 == 13:
         return _builtin_case(i, rng, tier)
+    if i % 20 == 7:
+        return _module_def_case(i, rng, tier)
 
     label, sp = C.pick_spec(i, rng, tier)
     force = None
